@@ -5,8 +5,10 @@ The model's `parseConfig` is a total function (an exception escaping `parse_conf
 correspondence divergence, T1).  The theorems below say what that function computes:
 every line is interpreted on its own, a line that is not a well-formed directive is the
 identity, parsing a concatenation is parsing the second text on top of the first (= `_merge_configs`
-on everything but the dead `default` field), and the quoted-message syntax round-trips for
-*every* message and every pattern without trailing whitespace.
+on everything but the dead `default` field), the quoted-message syntax round-trips for
+*every* message and every pattern without trailing whitespace, and every well-formed rule line
+(any directive, pattern tokens, `|` anchor, message) is read back as the rule that was written
+(`roundtrip_*`, writer and well-formedness in Lemmas/RoundTrip.lean).
 -/
 import Dippy.Lemmas.Parse
 import Dippy.Lemmas.Escape
